@@ -393,7 +393,21 @@ def validate_encoder(eng, n, rnd, out):
     import re
     for (t, cfg), r in zip(cfgs, res):
         msgs = common.compile_errors(r)
-        native_reject = any(re.search(r"default implementation of `%s`|`#\[derive_ex\(%s\)\]` is specified" % (t, t), m) for m in msgs)
+        named_reject = any(re.search(r"default implementation of `%s`|`#\[derive_ex\(%s\)\]` is specified" % (t, t), m) for m in msgs)
+        # whether the trait is refused is read from the output itself (no impl of it is generated, an error takes its place); which trait the message *names* is compared with that
+        impl_traits = {re.sub(r"<.*$", "", common.norm(it.get("trait", ""))).rsplit("::", 1)[-1] for it in r.get("items", []) if it.get("kind") == "impl"}
+        native_reject = bool(msgs) and t not in impl_traits
+        if native_reject != named_reject and not r.get("panic"):
+            case = {"property": PID, "kind": "reject_trait", "mode": "attr", "attr": ", ".join(TRAITS), "item": struct_item([cmpcfg.concrete_attrs(cfg)], [t]), "trait": t, "expected_reject": native_reject,
+                    "explain": "the impl of %s is %s, the error messages %s it: %s" % (t, "replaced by an error" if native_reject else "generated", "do not name" if native_reject else "name", [m[:120] for m in msgs])}
+            path = e3.write_replay(PID, "message-%s-%d" % (t, len(out.violations)), case)
+            out.violation("message-names-another-trait|%s|%s" % (t, sorted(cfg)), path,
+                          "verdict from the macro's own diagnostics, not from the solver: %s is %s but the error messages %s: %s for %s" % (
+                              t, "refused (no impl generated)" if native_reject else "generated", "name other traits only" if native_reject else "say that it is refused",
+                              [m[:100] for m in msgs][:2], struct_item([cmpcfg.concrete_attrs(cfg)], [t])))
+            if sum(1 for v in out.violations if v[0].startswith("message-names")) >= 3:
+                break
+            continue
         if t not in cache:
             ex = eng.executor(slice_bound=1)
             fn = eng.find(BODY_FN[t])
